@@ -179,6 +179,14 @@ static void print_ex(flatcc_json_printer_t *ctx, const char *s, size_t n)
         n -= k;
         ctx->flush(ctx, 0);
         k = (size_t)(ctx->pflush - ctx->p);
+        if (k == 0 && ctx->error) {
+            /*
+             * The flush failed and left no room, e.g. a fixed buffer of
+             * exactly FLATCC_JSON_PRINT_RESERVE bytes: give up, the
+             * error is already set.
+             */
+            return;
+        }
     }
     memcpy(ctx->p, s, n);
     ctx->p += n;
@@ -341,6 +349,10 @@ static void print_indent_ex(flatcc_json_printer_t *ctx, size_t n)
         n -= k;
         ctx->flush(ctx, 0);
         k = (size_t)(ctx->pflush - ctx->p);
+        if (k == 0 && ctx->error) {
+            /* See print_ex. */
+            return;
+        }
     }
     memset(ctx->p, ' ', n);
     ctx->p += n;
